@@ -754,7 +754,11 @@ def run_parseinit(prog, fn, T, tn, item):
         built = {}
         def build(t):
             if id(t) in built: return built[id(t)]
-            if t.kind == 'scalar' and getattr(t, 'vm', False):
+            if t.kind == 'func':        # void(void): not an object type
+                r_ = it.call('mktype', [ev(prog, 'TYPEFUNC'), 0]); r_.obj.f.update({('base',): w.t('void'), ('qual',): 0, ('size',): 0, ('align',): 0, ('incomplete',): 0, ('u', 'func', 'params'): None, ('u', 'func', 'nparam'): 0, ('u', 'func', 'isvararg'): 0, ('u', 'func', 'isprototype'): 1})
+            elif t.kind == 'incomplete-struct':
+                r_ = w.mkstruct(size=0, align=0); r_.obj.f[('incomplete',)] = 1
+            elif t.kind == 'scalar' and getattr(t, 'vm', False):
                 va = it.call('mkarraytype', [w.t('int'), 0, 0]); va.obj.f[('prop',)] = (it.load(va.obj, ('prop',)) or 0) | ev(prog, 'PROPVM'); va.obj.f[('incomplete',)] = 0
                 r_ = w.mkptr(va); r_.obj.f[('prop',)] = it.load(r_.obj, ('prop',)) | ev(prog, 'PROPVM')      # int (*)[n]
             elif t.kind == 'scalar': r_ = w.t(t.name)
@@ -1081,7 +1085,7 @@ def rule_addrconst(chk, prog, tier):
 # ------------------------------------------------------------------ C07.f which objects may have an initialiser
 
 def rule_initialisable(chk, prog, tier):
-    r = chk.rule('C07.f', 'the entity to be initialised is an array of unknown size or a complete object type that is not a variable-length array: a (non-empty) initialiser for a VLA, an array of VLAs or an incomplete structure is diagnosed '
+    r = chk.rule('C07.f', 'the entity to be initialised is an array of unknown size or a complete object type that is not a variable-length array: a (non-empty) initialiser for a VLA, an array of VLAs, an incomplete structure or a function type (`(void(void)){0}`) is diagnosed '
                  '(it would otherwise be stored into an object whose size the initialiser code takes to be 0), arrays of unknown size - also of variably modified element type - take their size from the list', floor=8,
                  oracle='C11 6.7.9p3')
     fn = prog.require_func('parseinit', 'init.c')
@@ -1099,8 +1103,9 @@ def rule_initialisable(chk, prog, tier):
     T['int[0]'] = z0
     zs = record('struct', 'zs', [('n', I, None), ('z', z0, None), ('m', I, None)])
     T['zs'] = zs
+    T['void(void)'] = Ty('func', name='void(void)', size=0, align=0); T['struct incomplete'] = Ty('incomplete-struct', name='struct incomplete', size=0, align=0)
     e = lambda k: ((), ('e', 'v%d' % k))
-    CASES = [('int[0]', ('list', [e(0)]), False), ('int[0]', ('list', [e(0), e(1)]), False), ('int[0]', ('list', []), 0), ('zs', ('list', [e(0), ((), ('list', [])), e(1)]), 8),
+    CASES = [('void(void)', ('list', [e(0)]), False), ('void(void)', ('list', []), False), ('struct incomplete', ('list', [e(0)]), False), ('struct incomplete', ('list', []), False), ('int[0]', ('list', [e(0)]), False), ('int[0]', ('list', [e(0), e(1)]), False), ('int[0]', ('list', []), 0), ('zs', ('list', [e(0), ((), ('list', [])), e(1)]), 8),
              ('fam', ('list', [e(0)]), 4), ('fam', ('list', [e(0), ((), ('str', 3, 1, 'v1'))]), False), ('fam', ('list', [e(0), ((), ('list', [e(1)]))]), False), ('fam', ('list', [((('.', 's'),), ('list', [e(1)]))]), False),
              ('fam', ('list', [e(0), e(1)]), False),('int[n]', ('list', [e(0)]), False), ('int[n]', ('list', [e(0), e(1)]), False), ('int[2][n]', ('list', [e(0)]), False), ('int(*[])[n]', ('list', [e(0), e(1)]), 16), ('int(*[3])[n]', ('list', [e(0)]), 24),
              ('int[]', ('list', [e(0), e(1), e(2)]), 12), ('int[3]', ('list', [e(0)]), 12), ('int[]', ('list', []), False)]
